@@ -169,6 +169,12 @@ func solveAll(dir string, results []*FuncResult, timeoutS int, par int) {
 				return
 			}
 			j.o.File = file
+			if j.o.Ground {
+				if err := writeGround(file, file); err != nil {
+					j.o.Verdict, j.o.Output = "error", err.Error()
+					return
+				}
+			}
 			to := timeoutS
 			if j.o.ExpectSat && to > 8 {
 				to = 8
